@@ -773,7 +773,11 @@ def run_bc_thread(res, ast):
                   "enter_ops must take the tape pointer after make_accessible (the buffer may move)")
     except Missing as m:
         res.missing("BC-THREAD", m)
-    # spill slots exist: build_context/free_context allocate temps.max(2)
+    run_layout_pair(res, ast, "BC-THREAD")
+
+
+def run_layout_pair(res, ast, rule):
+    """build_context / free_context use the identical layout with room for the two spill slots."""
     try:
         bc_ = ast.fn(BCMOD, "build_context")["node"]
         fc = ast.fn(BCMOD, "free_context")["node"]
@@ -784,11 +788,11 @@ def run_bc_thread(res, ast):
                     return " ".join(ast.src(BCMOD, l["init"]).split())
             return None
         la, lb = layout(bc_), layout(fc)
-        res.check(la is not None and la == lb and ".max(2)" in la.replace(" ", ""), "BC-THREAD", f"{BCMOD}|context-layout",
+        res.check(la is not None and la == lb and ".max(2)" in la.replace(" ", ""), rule, f"{BCMOD}|context-layout",
                   where(BCMOD, bc_, "build_context/free_context"),
                   "build_context and free_context must use the identical layout expression with room for the two spill slots (temps.max(2))")
     except Missing as m:
-        res.missing("BC-THREAD", m)
+        res.missing(rule, m)
 
 
 def run_bc_simul(res, ast):
